@@ -4,6 +4,7 @@
   emits gives back the text, upper-cased outside string literals (C17's automaton).
 -/
 import MotoModel.Proofs.BasicDecode
+import MotoModel.Proofs.BasicProgram
 import MotoModel.Props.C17
 namespace Moto.C14
 open Moto Moto.Basic Moto.Spec
@@ -308,5 +309,60 @@ example : BasicRef.decode false (encodeBody (Tape.str "GOTO 10")) = Tape.str "GO
 example : BasicRef.decode false (encodeBody (Tape.str "ONERRORGOTO5")) = Tape.str "ONERRORGOTO5" := by decide +kernel
 example : BasicRef.decode false (encodeBody (Tape.str "toto=1:else print\"a:\"else")) = Tape.str "TOTO=1:ELSE PRINT\"a:\"ELSE" := by decide
 example : extractLineParts (Tape.str "60 X=1") = some (60, Tape.str "X=1") := by decide
+
+theorem recsOf_decoded : ∀ (parts : List (Nat × Str)) (ptr : Nat), (∀ p ∈ parts, ∀ ch ∈ p.2, ch < 128) →
+    (recsOf ptr parts).map (fun r => (r.2.1, BasicRef.decode false r.2.2)) = parts.map (fun p => (p.1 % 65536, specUpper false p.2))
+  | [], _, _ => rfl
+  | (num, body) :: rest, ptr, h => by
+    simp only [recsOf, List.map_cons]
+    rw [lossless body (h (num, body) (by simp)), recsOf_decoded rest _ (fun p hp => h p (by simp [hp]))]
+
+/-- **C14 (the tokenized *program* decodes back to the same line numbers and the same text)**: for every numbered ASCII listing
+    without NUL characters whose image ends below address 65536 — whatever its spacing, however keywords, identifiers and digits
+    run together, with or without a newline after the last line, LF / CR LF / CR line ends — the independent parser accepts the file
+    the converter writes, and decoding each record (each token expanded to its keyword) gives back, line for line and in order, the
+    line's number (modulo 65536: the two bytes of the record) and the line's text upper-cased outside string literals, literal
+    contents unchanged. -/
+theorem program_roundtrip (text : Str) (parts : List (Nat × Str)) (file : Bytes)
+    (hc : convert text = some file) (hp : (readlines text).map extractLineParts = parts.map some)
+    (hch : ∀ p ∈ parts, ∀ ch ∈ p.2, ch ≠ 0 ∧ ch < 128) (hsz : Gen.Tokens.programBase + file.length < 65536) :
+    BasicRef.decodeProgram file = some (parts.map (fun p => (p.1 % 65536, specUpper false p.2))) := by
+  unfold BasicRef.decodeProgram
+  rw [parseProgram_convert text parts file hc hp (fun p hp' ch hch' => (hch p hp' ch hch').1) hsz]
+  simp only [Option.map_some]
+  rw [recsOf_decoded parts _ (fun p hp' ch hch' => (hch p hp' ch hch').2)]
+
+/-- the hypotheses are met: a two-line listing with run-together keywords and a missing final newline -/
+example : BasicRef.decodeProgram ((convert (Tape.str "10 fori=1to10:next\n20 goto10")).getD [])
+    = some [(10, Tape.str "FORI=1TO10:NEXT"), (20, Tape.str "GOTO10")] := by decide +kernel
+
+
+/-- **C14, stated on the listing as it is typed**: take any lines `N text` — numbers 1..65535, texts of ASCII characters other than
+    NUL, CR, LF, anything else in any arrangement — joined by line feeds, the last line with or without one.  The converter accepts
+    the listing, and if the image ends below address 65536 the independent parser and detokenizer give back exactly the numbers
+    and the texts that were typed, upper-cased outside string literals: nothing lost, duplicated or reordered. -/
+theorem typed_listing_roundtrip (finalLF : Bool) (ps : List (Nat × Str))
+    (hn : ∀ p ∈ ps, 0 < p.1 ∧ p.1 < 65536)
+    (hch : ∀ p ∈ ps, ∀ c ∈ p.2, c ≠ 0 ∧ c < 128 ∧ c ≠ 10 ∧ c ≠ 13) :
+    ∃ file, convert (listingText finalLF ps) = some file ∧
+      (Gen.Tokens.programBase + file.length < 65536 →
+        BasicRef.decodeProgram file = some (ps.map (fun p => (p.1, specUpper false p.2)))) := by
+  have hp := parts_of_listing finalLF ps (fun p hp => (hn p hp).1) (fun p hp c hc => ⟨(hch p hp c hc).2.2.1, (hch p hp c hc).2.2.2⟩)
+  obtain ⟨bytes, hb⟩ := convertLines_of_parts _ ps Gen.Tokens.programBase hp
+  have hconv : convert (listingText finalLF ps) = some ([0xFF] ++ u16 (bytes ++ [0, 0]).length ++ (bytes ++ [0, 0])) := by
+    simp only [convert, hb]
+  refine ⟨_, hconv, ?_⟩
+  intro hsz
+  have := program_roundtrip (listingText finalLF ps) ps _ hconv hp
+    (fun p hp' c hc => ⟨(hch p hp' c hc).1, (hch p hp' c hc).2.1⟩) hsz
+  rw [this]
+  congr 1
+  apply List.map_congr_left
+  intro p hp'
+  rw [Nat.mod_eq_of_lt (hn p hp').2]
+
+/-- the hypotheses are met (three lines, the last without line feed; a literal, run-together keywords) -/
+example : (convert (listingText false [(10, Tape.str "fori=1to3"), (20, Tape.str "print\"a b\";i"), (65535, Tape.str "nexti")])).isSome = true := by
+  decide +kernel
 
 end Moto.C14
